@@ -27,6 +27,8 @@ NAMES = ["a.txt", "dir/b.bin", "dir/sub/c", "üñí/日本.txt", "\U0001F600.bin
 SIZES = [0, 1, 2, 15, 16, 17, 31, 32, 33, 100, 1000, 4095, 4096, 4097, 20000]
 
 
+GEN_DEPS = ["write_uint64", "write_uint32", "write_real_uint64", "write_boolean", "write_crcs", "write_bytes", "write_byte", "PackInfo.__init__", "PackInfo.write"]
+
 def gen_members(rng, n=None):
     """a session: (name, bytes) entries; bytes None = a directory entry (a session may consist of directories only)"""
     n = rng.choice([0, 1, 1, 2, 3, 4, 6]) if n is None else n
@@ -111,6 +113,13 @@ def check_raw_header_model(ctx, rep, data):
 def run(ctx):
     rep, tier = ctx["rep"], ctx["tier"]
     rng = random.Random(ctx["seed"])
+
+    try:
+        from harness import hdrgen
+        hdrgen.check_writers(ctx, rep, random.Random(ctx["seed"] ^ 0x7A3), tier)
+    except Exception as e:  # noqa
+        rep.violation("translation validation raised %s: %s" % (type(e).__name__, e),
+                      {"kind": "exception", "part": "hdrgen"}, concrete=False, match_keys={"kind": "exception", "part": "hdrgen"})
     rep.cov["rule"] = ("sessions through the public API: chain x header mode (raw/encoded/encrypted) x 1..3 sessions (append) x "
                        "member lists (0..6 members, sizes around 0/16/4096, Unicode names) x optional writeall tree (dirs, empty dir, "
                        "zero-length file, symlink); each archive parsed by the strict specification reader and decoded with "
